@@ -110,3 +110,24 @@ Print Assumptions C04_execution_is_walk.
 Print Assumptions C04_walks_are_executions.
 Print Assumptions C04_cond_branch_order_pc.
 Print Assumptions C04_label_lookup_agrees.
+
+(* ------------------------------------------------------------------------------------------------------------
+   Extension (second round): the executions the theorems speak about are derived from a CFG-FREE, instruction-level
+   concrete semantics (Spec/InsSem.v: program counter, return stack, data stack; data-determined bz/bnz), not defined on
+   tealer's blocks: Lemmas/InsSemLemmas.v *)
+From Coq Require Import List String NArith ZArith Bool Arith.
+From Tealer Require Import Tables Leaves LeafPrelude Syntax Parse Cfg StackAst Keys Analysis Domains Detect Runs Eval Exec InsExec InsSem WalkLemmas ExecLemmas GraphWf NoMiss InsSemLemmas.
+
+(* data level: every concrete instruction-level approving execution induces a block-level execution over exactly the blocks it visits *)
+Theorem C04_concrete_execution_is_walk :
+  forall (e : env) (sem : opsem) (p : prog) (t : teal) (tr : list dconfig),
+       parse_teal p = Ok t -> IAccepts e sem p tr -> Accepts e sem (whole_function t) (abs_trace t (ctl_trace tr)).
+Proof. exact @iaccepts_refines. Qed.
+
+(* its control projection is an execution of the control semantics (whose block sequence is a walk: C04_execution_is_walk) *)
+Theorem C04_concrete_execution_control :
+  forall (e : env) (sem : opsem) (p : prog) (tr : list dconfig), IExec e sem p tr -> IRun p (ctl_trace tr).
+Proof. exact @iexec_is_irun. Qed.
+
+Print Assumptions C04_concrete_execution_is_walk.
+Print Assumptions C04_concrete_execution_control.
